@@ -106,6 +106,102 @@ def generate(repo, g):
             or sorted((k.arg, u(k.value)) for k in ud[0].keywords) != [('fromfile', 'str(from_p)'), ('tofile', 'str(to_p)')]:
         raise TieBroken('refactoring/__init__.py: get_diff unified_diff call', [u(x) for x in ud])
 
+    # --- ChangedFile.get_diff: which path each header shows
+    #     if <guard> is None: v = <literal>
+    #     else:
+    #         try: v = <subject>.relative_to(project_path)
+    #         except ValueError: v = <fallback>
+    # The attribute names are handed to the model as they stand in the source; the theorems
+    # diff_header_from / diff_header_to say which attribute each header must render.
+    pp = [n for n in fn.body if isinstance(n, ast.Assign) and u(n.targets[0]) == 'project_path']
+    if len(pp) != 1 or u(pp[0].value) != 'self._inference_state.project.path':
+        raise TieBroken('refactoring/__init__.py: get_diff project_path is', [u(x) for x in pp])
+    specs = {}
+    for st in fn.body:
+        if not (isinstance(st, ast.If) and isinstance(st.test, ast.Compare) and len(st.test.ops) == 1
+                and isinstance(st.test.ops[0], ast.Is) and u(st.test.comparators[0]) == 'None'):
+            continue
+        guard = u(st.test.left)
+        if len(st.body) != 1 or not isinstance(st.body[0], ast.Assign) \
+                or not isinstance(st.body[0].value, ast.Constant) or not isinstance(st.body[0].value.value, str):
+            raise TieBroken('refactoring/__init__.py: get_diff `%s is None` branch' % guard, u(st))
+        var, none_text = u(st.body[0].targets[0]), st.body[0].value.value
+        if len(st.orelse) != 1 or not isinstance(st.orelse[0], ast.Try):
+            raise TieBroken('refactoring/__init__.py: get_diff else branch of `%s is None`' % guard, u(st))
+        tr = st.orelse[0]
+        if len(tr.body) != 1 or not isinstance(tr.body[0], ast.Assign) or u(tr.body[0].targets[0]) != var \
+                or tr.orelse or tr.finalbody or len(tr.handlers) != 1 or tr.handlers[0].type is None \
+                or u(tr.handlers[0].type) != 'ValueError' or len(tr.handlers[0].body) != 1 \
+                or not isinstance(tr.handlers[0].body[0], ast.Assign) \
+                or u(tr.handlers[0].body[0].targets[0]) != var:
+            raise TieBroken('refactoring/__init__.py: get_diff try/except of ' + var, u(tr))
+        call = tr.body[0].value
+        if not (isinstance(call, ast.Call) and isinstance(call.func, ast.Attribute)
+                and call.func.attr == 'relative_to' and [u(a) for a in call.args] == ['project_path']
+                and not call.keywords):
+            raise TieBroken('refactoring/__init__.py: get_diff computes %s by' % var, u(call))
+        if var in specs:
+            raise TieBroken('refactoring/__init__.py: get_diff assigns %s in two `is None` statements' % var)
+        specs[var] = (guard, none_text, u(call.func.value), u(tr.handlers[0].body[0].value))
+    if sorted(specs) != ['from_p', 'to_p']:
+        raise TieBroken('refactoring/__init__.py: get_diff header variables', sorted(specs))
+    for var, name, what in [('from_p', 'diffFromHeader', '--- (fromfile)'), ('to_p', 'diffToHeader', '+++ (tofile)')]:
+        g.define(name, 'String × String × String × String',
+                 '(%s)' % ', '.join(lean_str(x) for x in specs[var]),
+                 'ChangedFile.get_diff, the %s header: (attribute tested for None, text shown for None, '
+                 'attribute made relative to the project path, attribute shown when that raises ValueError)' % what)
+
+    # --- Refactoring.get_diff: the `rename from / rename to` lines, _try_relative_to
+    fn = ref.find('Refactoring.get_diff')
+    loops = [n for n in fn.body if isinstance(n, ast.For)]
+    if len(loops) != 1 or u(loops[0].iter) != 'self.get_renames()' or not isinstance(loops[0].target, ast.Tuple) \
+            or len(loops[0].body) != 1 or not isinstance(loops[0].body[0], ast.AugAssign):
+        raise TieBroken('refactoring/__init__.py: Refactoring.get_diff rename loop', [u(x) for x in loops])
+    pair = [u(e) for e in loops[0].target.elts]
+    val = loops[0].body[0].value
+    if not (isinstance(val, ast.BinOp) and isinstance(val.op, ast.Mod) and isinstance(val.left, ast.Constant)
+            and isinstance(val.left.value, str) and isinstance(val.right, ast.Tuple)):
+        raise TieBroken('refactoring/__init__.py: Refactoring.get_diff rename text', u(val))
+    args = []
+    for a in val.right.elts:
+        if not (isinstance(a, ast.Call) and u(a.func) == '_try_relative_to' and len(a.args) == 2
+                and u(a.args[1]) == 'project_path' and u(a.args[0]) in pair):
+            raise TieBroken('refactoring/__init__.py: Refactoring.get_diff rename argument', u(a))
+        args.append(pair.index(u(a.args[0])))
+    pieces = val.left.value.split('%s')
+    if len(pieces) != len(args) + 1 or '%' in ''.join(pieces):
+        raise TieBroken('refactoring/__init__.py: Refactoring.get_diff rename format', val.left.value)
+    g.define('renameLinePieces', 'List String', lean_list(pieces),
+             "Refactoring.get_diff: the text around the %s of 'rename from %s\\nrename to %s\\n'")
+    g.define('renameLineArgs', 'List Nat', '[%s]' % ', '.join(str(a) for a in args),
+             'Refactoring.get_diff: which element of a get_renames() pair (0 = old, 1 = new) fills each %s')
+    pps = [n for n in fn.body if isinstance(n, ast.Assign) and u(n.targets[0]) == 'project_path']
+    if len(pps) != 1 or u(pps[0].value) != 'self._inference_state.project.path':
+        raise TieBroken('refactoring/__init__.py: Refactoring.get_diff project_path is', [u(x) for x in pps])
+    ret = [n for n in ast.walk(fn) if isinstance(n, ast.Return)]
+    if len(ret) != 1 or u(ret[0].value) != "text + ''.join((f.get_diff() for f in self.get_changed_files().values()))":
+        raise TieBroken('refactoring/__init__.py: Refactoring.get_diff returns', [u(r.value) for r in ret])
+    tfn = ref.find('_try_relative_to')
+    tparams = [a.arg for a in tfn.args.args]
+    body = [st for st in tfn.body if not (isinstance(st, ast.Expr) and isinstance(st.value, ast.Constant))]
+    ok = len(tparams) == 2 and len(body) == 1 and isinstance(body[0], ast.Try) and len(body[0].body) == 1 \
+        and isinstance(body[0].body[0], ast.Return) and len(body[0].handlers) == 1 \
+        and body[0].handlers[0].type is not None and u(body[0].handlers[0].type) == 'ValueError' \
+        and len(body[0].handlers[0].body) == 1 and isinstance(body[0].handlers[0].body[0], ast.Return) \
+        and not body[0].orelse and not body[0].finalbody
+    if ok:
+        call = body[0].body[0].value
+        ok = isinstance(call, ast.Call) and isinstance(call.func, ast.Attribute) and call.func.attr == 'relative_to' \
+            and len(call.args) == 1 and not call.keywords
+    if not ok:
+        raise TieBroken('refactoring/__init__.py: _try_relative_to has an unknown shape', u(tfn)[:400])
+    names = [u(call.func.value), u(call.args[0]), u(body[0].handlers[0].body[0].value)]
+    if any(n not in tparams for n in names):
+        raise TieBroken('refactoring/__init__.py: _try_relative_to uses', names)
+    g.define('tryRelativeToSel', 'Nat × Nat × Nat', '(%s)' % ', '.join(str(tparams.index(n)) for n in names),
+             '_try_relative_to(path, base): parameter index (0 = path, 1 = base) of the receiver of '
+             '.relative_to, of its argument, and of the value returned on ValueError')
+
     # --- calculate_to_path: string prefix replacement or component-wise (relative_to)
     fn = ref.find('Refactoring.get_changed_files')
     src_txt = u(fn)
@@ -158,7 +254,7 @@ def generate(repo, g):
 
     for s, d in [(ref, 'ChangedFile.get_diff'), (ref, 'ChangedFile.get_new_code'), (ref, 'ChangedFile.apply'),
                  (ref, 'Refactoring.get_changed_files'), (ref, 'Refactoring.get_renames'),
-                 (ref, 'Refactoring.get_diff'), (ref, 'Refactoring.apply'), (ref, '_calculate_rename'),
+                 (ref, 'Refactoring.get_diff'), (ref, 'Refactoring.apply'), (ref, '_calculate_rename'), (ref, '_try_relative_to'),
                  (ref, 'rename'), (api, 'Script.extract_variable'), (api, 'Script.extract_function'),
                  (api, 'Script.rename'), (api, 'Script.inline')]:
         g.fp(s, d)
